@@ -172,6 +172,16 @@ func runC06(r *ev.Run, thorough bool) {
 			scs = append(scs, &hScenario{Name: t.QName() + " nil-fill", T: t,
 				Msgs: []*rm.Value{valenum.NilDyn(valenum.WithKey(t, k0, "Z")), valenum.NilDyn(valenum.WithKey(t, k1, "D"))}, Ops: ops, Depth: depth, Caps: []int{capZero, capOwned, 1}})
 		}
+		if di := t.DynField(); di >= 0 && t.Fields[di].Nil == "fill" {
+			// two DIFFERENT messages with a nil extension under the SAME key, and the caller writing through the first
+			// one's filled-in extension between the encodes: the second message's bytes must not depend on it
+			tab := dynTable(t)
+			for _, k := range []string{tab.Order[0], tab.Order[len(tab.Order)-1]} {
+				scs = append(scs, &hScenario{Name: t.QName() + " nil-fill same key " + k + " with MUT", T: t,
+					Msgs: []*rm.Value{valenum.NilDyn(valenum.WithKey(t, k, "Z")), valenum.NilDyn(valenum.WithKey(t, k, "D"))},
+					Ops:  []hOp{{opENC, 0}, {opENC, 1}, {opMUT, 0}, {opMUT, 1}, {opRESET, 0}}, Depth: depth + 1, Caps: []int{capZero}})
+			}
+		}
 		// list-bearing types: the long variant, one level deeper
 		hasList := false
 		for i := range t.Fields {
@@ -188,7 +198,7 @@ func runC06(r *ev.Run, thorough bool) {
 		fd = 5
 	}
 	scs = append(scs, frameScenarios(func(t *rm.Type) bool { return true }, fd)...)
-	r.Rule = fmt.Sprintf("every type as a single-type scenario (messages Z, D; nil-extension variants; long variants) with ALL operation sequences of length <= %d over {ENC(m0),ENC(m1),SKIP(1),SKIP(3),JUNK(1 byte),JUNK(5000 bytes),RESET} x 4 capacity classes, plus all frame scenarios of C04 at depth %d; oracle: after ENC the unread buffer == prior ++ EncodeRef(m), prior bytes identical; same object encoded again gives the same bytes; the V1 repeatability history again for 8 never-seen values per type AFTER A LONG SESSION (5,000 / 70,000 round trips of ever new values per type); distinct = (scenario,capacity,sequence)", depth, fd)
+	r.Rule = fmt.Sprintf("every type as a single-type scenario (messages Z, D; nil-extension variants, also two messages under the same key with MUT(m) - the caller writing through a filled-in extension - between the encodes, depth+1; long variants) with ALL operation sequences of length <= %d over {ENC(m0),ENC(m1),SKIP(1),SKIP(3),JUNK(1 byte),JUNK(5000 bytes),RESET} x 4 capacity classes, plus all frame scenarios of C04 at depth %d; oracle: after ENC the unread buffer == prior ++ EncodeRef(m), prior bytes identical; same object encoded again gives the same bytes; the V1 repeatability history again for 8 never-seen values per type AFTER A LONG SESSION (5,000 / 70,000 round trips of ever new values per type); distinct = (scenario,capacity,sequence)", depth, fd)
 	r.Assume("model transition for ENC is: unread ++= EncodeRef(m)")
 	for _, sc := range scs {
 		sc.SkipObjectCheck = true
@@ -302,11 +312,15 @@ func runC16(r *ev.Run, thorough bool) {
 	for _, t := range bind.Types {
 		scs = append(scs, &hScenario{Name: t.QName(), T: t, Msgs: []*rm.Value{valenum.Distinct(t), valenum.Long(t)}, Ops: ops, Depth: depth, Caps: []int{capOwned, capZero}})
 	}
-	r.Rule = fmt.Sprintf("per type (messages D and L): ALL operation sequences of length <= %d over {ENC(m0),ENC(m1),DEC,SCRIBBLE(overwrite unread bytes, spare capacity and the caller-owned backing array with EE),RESET,MUT(change every scalar, text, list element and nested part of m0 in place)} x {buffer over a caller-owned slice, zero-value buffer}; separation invariant after every op: every decoded message equals its deep snapshot, buffer bytes equal the model; plus the history [ENC DEC SCRIBBLE RESET ENC MUT] over a caller-owned slice for EVERY canonical value of V1, and again for 8 never-seen values per type AFTER A LONG SESSION (5,000 round trips of ever new values per type; 70,000 in thorough); distinct = (type,capacity,sequence) / (type,value)", depth)
+	r.Rule = fmt.Sprintf("per type (messages D and L): ALL operation sequences of length <= %d over {ENC(m0),ENC(m1),DEC,SCRIBBLE(overwrite unread bytes, spare capacity and the caller-owned backing array with EE),RESET,MUT(change every scalar, text, list element and nested part of m0 in place)} x {buffer over a caller-owned slice, zero-value buffer}; separation invariant after every op: every decoded message equals its deep snapshot, buffer bytes equal the model; plus the histories [ENC SKIP(3 foreign bytes) DEC SCRIBBLE RESET ENC MUT] over a caller-owned slice and [ENC DEC SCRIBBLE RESET ENC MUT] in a zero-value buffer (SCRIBBLE also overwrites the consumed bytes, through Reset/Write of Cap() bytes) for EVERY canonical value of V1 incl. the complete size sweeps, and again for 8 never-seen values per type AFTER A LONG SESSION (5,000 round trips of ever new values per type; 70,000 in thorough); distinct = (type,capacity,sequence) / (type,value)", depth)
 	r.Assume("snapshots are deep copies made through reflection (strings re-allocated)")
 	parScenarios(r, "C16", scs)
-	v1Histories(r, "C16", bind.Types, [][]hOp{{{opENC, 0}, {opDEC, 0}, {opSCRIBBLE, 0}, {opRESET, 0}, {opENC, 0}, {opMUT, 0}}}, capOwned, true, true)
-	warmHistories(r, "C16", thorough, [][]hOp{{{opENC, 0}, {opDEC, 0}, {opSCRIBBLE, 0}, {opRESET, 0}, {opENC, 0}, {opMUT, 0}}}, capOwned, true)
+	// the caller-owned slice starts with 3 foreign bytes: skip them so that DEC decodes the message itself (without the
+	// SKIP the decode starts inside those bytes and mostly fails, which made this leg nearly vacuous for list-bearing
+	// types); and the same history in a zero-value buffer, where SCRIBBLE overwrites the consumed bytes through Reset/Write
+	v1Histories(r, "C16", bind.Types, [][]hOp{{{opENC, 0}, {opSKIP, 3}, {opDEC, 0}, {opSCRIBBLE, 0}, {opRESET, 0}, {opENC, 0}, {opMUT, 0}}}, capOwned, true, true)
+	v1Histories(r, "C16", bind.Types, [][]hOp{{{opENC, 0}, {opDEC, 0}, {opSCRIBBLE, 0}, {opRESET, 0}, {opENC, 0}, {opMUT, 0}}}, capZero, true, true)
+	warmHistories(r, "C16", thorough, [][]hOp{{{opENC, 0}, {opDEC, 0}, {opSCRIBBLE, 0}, {opRESET, 0}, {opENC, 0}, {opMUT, 0}}}, capZero, true)
 	r.Sample("sample.StringPacket: [ENC(m0) DEC SCRIBBLE] over a caller-owned slice: decoded message unchanged")
 	r.Set("bound", map[string]any{"depth": depth})
 }
